@@ -54,7 +54,10 @@ def level_seqs(maxlen, tier):
     return out
 
 
-def kernel_case(rec, n, levels, mask, bypass, log, seed):
+AFFINE = ((1.0, 0.0), (0.001, 1000.0))  # target_data = offset + scale * lattice value
+
+
+def kernel_case(rec, n, levels, mask, bypass, log, seed, aff=0):
     from xgcm.transform import interp_1d_linear
 
     profs = profiles(n)
@@ -66,9 +69,13 @@ def kernel_case(rec, n, levels, mask, bypass, log, seed):
     lv = np.array(levels, dtype=float)
     if log:
         th, lv = 2.0 ** th, 2.0 ** lv
+    elif aff:
+        # weak stratification on a large background value; levels exactly on the (scaled) nodes stay exact
+        sc, off = AFFINE[aff]
+        th, lv = off + sc * th, off + sc * lv
     phi_b = np.broadcast_to(phi[None], (P,) + phi.shape)
     th_b = np.broadcast_to(th, (P, phi.shape[0], n))
-    base = dict(level="kernel", n=n, levels=list(levels), mask=mask, bypass=bypass, log=log)
+    base = dict(level="kernel", n=n, levels=list(levels), mask=mask, bypass=bypass, log=log, aff=aff)
     try:
         out = interp_1d_linear(phi_b, th_b, lv, mask_edges=mask, bypass_checks=bypass, logarithmic=log)
     except Exception as e:
@@ -80,7 +87,7 @@ def kernel_case(rec, n, levels, mask, bypass, log, seed):
         case = dict(base, profile=list(prof))
         lo, hi = min(prof), max(prof)
         nontriv = any((l < lo or l > hi or l not in prof) for l in levels)
-        rec.case(("k", n, levels, mask, bypass, log, prof), nontriv, sample=case if p == 3 else None, calls=1 if p == 0 else 0)
+        rec.case(("k", n, levels, mask, bypass, log, prof, aff), nontriv, sample=case if p == 3 else None, calls=1 if p == 0 else 0)
         if out.shape != (P, n + 1, m):
             rec.violation("kernel", "shape", case, [P, n + 1, m], list(out.shape))
             return
@@ -97,7 +104,8 @@ def kernel_case(rec, n, levels, mask, bypass, log, seed):
                 cls = "masked-at-or-inside-range" + (":at-end-value" if l in (lo, hi) else "")
                 rec.violation("kernel", cls, dict(case, k=k), wf, got)
                 return
-            if not np.allclose(got, wf, rtol=1e-9 if log else 1e-13, atol=1e-9 if log else 1e-13):
+            tolk = 1e-9 if log else (1e-6 if aff else 1e-13)
+            if not np.allclose(got, wf, rtol=tolk, atol=tolk):
                 cls = "weights" + (":decreasing-profile" if prof[0] > prof[-1] else "") + (":outside-range" if (l < lo or l > hi) else "")
                 rec.violation("kernel", cls, dict(case, k=k), wf, got)
                 return
@@ -113,15 +121,21 @@ COLS = [((0, 1, 3), (5, 3, 0)), ((0, 2, 5), (1, 2, 3)), ((4, 2, 1), (5, 4, 0)), 
 API_LEVELS = [(0.5, 1.5, 4.0), (6.0, 2.0, -1.0, 3.0), (1.0,), (0.0, 5.0, 2.5)]
 
 
+_API_GRID = {}
+
+
 def api_case(rec, ci, li, tkind, suffix, mask, method, layout, chunk, seed):
     from xgcm import Grid
 
     case = dict(level="api", ci=ci, li=li, tkind=tkind, suffix=suffix, mask=mask, method=method, layout=layout, chunk=chunk)
     nz = 3
-    ds = xr.Dataset(coords={"zc": ("zc", np.arange(nz) + 0.5), "zo": ("zo", np.arange(nz + 1.0)), "x": ("x", [0, 1])})
-    with warnings.catch_warnings():
-        warnings.simplefilter("ignore")
-        g = Grid(ds, coords={"Z": {"center": "zc", "outer": "zo"}}, periodic=False, autoparse_metadata=False)
+    g = _API_GRID.get("g")
+    if g is None:
+        # one Grid object serves every API case of a shard (same names and shapes, other values)
+        ds = xr.Dataset(coords={"zc": ("zc", np.arange(nz) + 0.5), "zo": ("zo", np.arange(nz + 1.0)), "x": ("x", [0, 1])})
+        with warnings.catch_warnings():
+            warnings.simplefilter("ignore")
+            g = _API_GRID["g"] = Grid(ds, coords={"Z": {"center": "zc", "outer": "zo"}}, periodic=False, autoparse_metadata=False)
     profs = COLS[ci]
     levels = API_LEVELS[li]
     phi = np.array([[1.0, 2.0, 4.0], [10.0 + seed % 2, -20.0, 40.0]])
@@ -257,7 +271,10 @@ def run_shard(shard, tier, seed, rec):
                 for bypass in (False, True):
                     for log in (False, True):
                         kernel_case(rec, n, levels, mask, bypass, log, seed)
+                    if not bypass:
+                        kernel_case(rec, n, levels, mask, bypass, False, seed, aff=1)
     elif shard[0] == "api":
+        _API_GRID.clear()
         for c in api_cases(tier)[shard[1]: shard[2]]:
             api_case(rec, *c, seed)
     else:
@@ -267,9 +284,10 @@ def run_shard(shard, tier, seed, rec):
 def replay_case(case, seed, rec):
     if case["level"] == "kernel":
         rec.MAXVIOL = 10 ** 6
-        kernel_case(rec, case["n"], tuple(case["levels"]), case["mask"], case["bypass"], case["log"], seed)
+        kernel_case(rec, case["n"], tuple(case["levels"]), case["mask"], case["bypass"], case["log"], seed, aff=case.get("aff", 0))
         rec.viol = [v for v in rec.viol if v["case"].get("profile") == case["profile"]]
     elif case["level"] == "api":
+        _API_GRID.clear()
         api_case(rec, case["ci"], case["li"], case["tkind"], case["suffix"], case["mask"], case["method"], case["layout"], case["chunk"], seed)
     else:
         api_default_td(rec, seed)
